@@ -65,6 +65,10 @@ SHAPES = {
         ('AFieldsetsAgainstFiles', T('''
             if self.nc_linked and trajectory._fieldsets != set(self._nc.keys()):
                 raise ValueError()''')),
+        # optional until fix FC10b is applied (then always present): the declared associated field sets
+        ('AFieldsetsDeclaredForAssociated', T('''
+            if self._file_creation_pending and (not self.associated_fieldsets <= trajectory._fieldsets):
+                raise ValueError()''')),
         ('AFieldsetsAgainstCached', T('''
             if len(self._trajectories) > 0:
                 proto = next(iter(self._trajectories.values()))
@@ -268,6 +272,10 @@ SHAPES = {
         ('CNames', 'names = [Path(p).name for p in input_stores]'),
         ('CRefuseSharedFileNames', T('''
             if len(set(names)) != len(names):
+                raise ValueError()''')),
+        # optional until fix FC09b is applied: the name of the merged index is reserved
+        ('CRefuseReservedIndexName', T('''
+            if '_index.nc' in names:
                 raise ValueError()''')),
         ('CReturnInputs', 'return input_stores'),
     ],
